@@ -75,6 +75,19 @@ vk_t *vk_get(const char *name)
 	exit(2);
 }
 
+static char *plain_dump(const json_t *j)
+{
+	json_malloc_t m;
+	json_free_t f;
+	char *d = json_dumps(j, JSON_COMPACT), *r;
+	if (!d)
+		return NULL;
+	r = strdup(d);
+	json_get_alloc_funcs(&m, &f);
+	f(d);
+	return r;
+}
+
 char *vk_jwk_text(const vk_t *k, int priv, const char *alg, const char *kid)
 {
 	json_t *j = json_deep_copy(priv ? k->priv_jwk : k->pub_jwk);
@@ -82,7 +95,7 @@ char *vk_jwk_text(const vk_t *k, int priv, const char *alg, const char *kid)
 		json_object_set_new(j, "alg", json_string(alg));
 	if (kid)
 		json_object_set_new(j, "kid", json_string(kid));
-	char *s = json_dumps(j, JSON_COMPACT);
+	char *s = plain_dump(j);
 	json_decref(j);
 	return s;
 }
@@ -105,7 +118,7 @@ char *vk_oct_jwk(const unsigned char *key, size_t n, const char *alg, const char
 		json_object_set_new(j, "alg", json_string(alg));
 	if (kid)
 		json_object_set_new(j, "kid", json_string(kid));
-	char *s = json_dumps(j, JSON_COMPACT);
+	char *s = plain_dump(j);
 	json_decref(j);
 	free(b);
 	return s;
@@ -348,4 +361,34 @@ void rc_rng_reseed(uint64_t seed)
 	rng_seed = seed ^ 0x5eedULL;
 	rng_ctr = 0;
 	rng_left = 0;
+}
+
+/* ------------------------------------------------------------ libcrypto allocation accounting */
+static long ossl_live;
+static int ossl_tracked;
+static void *t_malloc(size_t n, const char *f, int l) { (void)f; (void)l; void *p = malloc(n ? n : 1); if (p) ossl_live++; return p; }
+static void *t_realloc(void *p, size_t n, const char *f, int l)
+{
+	(void)f; (void)l;
+	if (!p)
+		return t_malloc(n, f, l);
+	if (n == 0) {
+		ossl_live--;
+		free(p);
+		return NULL;
+	}
+	return realloc(p, n);
+}
+static void t_free(void *p, const char *f, int l) { (void)f; (void)l; if (p) ossl_live--; free(p); }
+int rc_track_alloc(void)
+{
+	ossl_tracked = CRYPTO_set_mem_functions(t_malloc, t_realloc, t_free);
+	return ossl_tracked;
+}
+long rc_alloc_live(void) { return ossl_live; }
+long vk_live(void)
+{
+	/* the per-thread OpenSSL error queue keeps malloc'd strings of up to 16 entries: not a leak */
+	ERR_clear_error();
+	return vf_alloc_live() + ossl_live;
 }
